@@ -481,7 +481,11 @@ class SpecEval:
             key = ('el', ty)
             r_ = z3.Const('oa_r', z3.IntSort())
             new_, old_ = self.heap.get(key), self.old.get(key)
-            return SV(z3.ForAll([r_], z3.Implies(z3.And(r_ >= 1, r_ <= self.old.get(('alloc', 'arr'))), new_[r_] == old_[r_]), patterns=[new_[r_]]), 'bool')
+            conds_ = [r_ >= 1, r_ <= self.old.get(('alloc', 'arr'))]
+            for extra in args[1:]:
+                # oldarrays_same("T", s...): except the backing array the slice s had at function entry
+                conds_.append(r_ != S.arr(self.sub(heap=self.old).ev(extra).t))
+            return SV(z3.ForAll([r_], z3.Implies(z3.And(*conds_), new_[r_] == old_[r_]), patterns=[new_[r_]]), 'bool')
         if name == 'mathpow':
             # mathpow(x, y): math.Pow(x, y) - the same uninterpreted function as the trusted model of math.Pow
             x_, y_ = self.ev(args[0]), self.ev(args[1])
